@@ -102,10 +102,8 @@ Definition sstep (st : srun) (op : list tok) : srun * list tok :=
                    end in
           let bidx := match b with Some b => Z.of_N (a_port b) - 5000 | None => -1 end in
           let reply := [66; 48 + Z.to_N bidx; 124]%N ++ p in
-          let '(sh2, w2) :=
-            if Nat.leb (List.length reply) 1500
-            then shell_step enc_hash true sh1 (r_now st) no_env [] (EUpstream tok reply)
-            else (sh1, []) in
+          (* an echo above max_rx_datagram_size is dropped by the manager itself *)
+          let '(sh2, w2) := shell_step enc_hash true sh1 (r_now st) no_env [] (EUpstream tok reply) in
           let rt := match first_client w2 with Some d => Z.of_N (a_port d) - 10000 | None => -1 end in
           (mksrun sh2 (r_now st) (r_cfg st) seq1 n1 (r_v6 st) false,
            [TS "send"; TN ci; TN 1; TN bidx;
@@ -127,6 +125,18 @@ Definition sstep (st : srun) (op : list tok) : srun * list tok :=
         (mksrun (fst (shell_step enc_hash true (r_sh st) (r_now st) no_env [] (EConfig (ISetCluster c'))))
                 (r_now st) c' (r_seq st) (r_nseq st) (r_v6 st) (r_removed st), [TS "recluster"; TN 1])
       | _ => bad end
+    else if name =? "updlistener" then
+      match args with
+      | TN n :: _ =>
+        (mksrun (fst (shell_step enc_hash true (r_sh st) (r_now st) no_env [] (EConfig (ISetMaxRx (Z.to_N n)))))
+                (r_now st) (r_cfg st) (r_seq st) (r_nseq st) (r_v6 st) (r_removed st), [TS "updlistener"; TN 1])
+      | _ => bad end
+    else if name =? "recluster_noudp" then
+      (* AddCluster without a udp block: apply_cluster clears the cached knobs, cluster_config_for gives the defaults *)
+      let c := r_cfg st in
+      let c' := cluster_config_for (c_cluster c) (c_front c) (c_back c) (apply_cluster_cache None None) in
+      (mksrun (fst (shell_step enc_hash true (r_sh st) (r_now st) no_env [] (EConfig (ISetCluster c'))))
+              (r_now st) c' (r_seq st) (r_nseq st) (r_v6 st) (r_removed st), [TS "recluster_noudp"; TN 1])
     else if name =? "addbackend" then (st, [TS "addbackend"; TN 1])   (* the load balancer is an oracle *)
     else if name =? "rmbackend" then (st, [TS "rmbackend"; TN 1])
     else if name =? "bounce" then
